@@ -280,15 +280,19 @@ func (client *client) setError(err error) {
 			if client.version == packets.Version5 {
 				if code, ok := err.(*codes.Error); ok {
 					if client.IsConnected() {
-						// send Disconnect
-						client.write(&packets.Disconnect{
+						// send Disconnect, without blocking: when out is full and the writer has failed,
+						// the writer is waiting for this very Once and nobody would ever drain out.
+						select {
+						case client.out <- &packets.Disconnect{
 							Version: packets.Version5,
 							Code:    code.Code,
 							Properties: &packets.Properties{
 								ReasonString: code.ReasonString,
 								User:         kvsToProperties(code.UserProperties),
 							},
-						})
+						}:
+						default:
+						}
 					}
 				}
 			}
